@@ -177,6 +177,9 @@ func mixCommands() []database.Command {
 	out = append(out, database.Command{Command: "frobnicate-now", Description: "qq", Keywords: []string{"edge"}})
 	k++
 	out = append(out, database.Command{Command: fmt.Sprintf("zq%dx qq", k), Description: "ends with frobnicate", Keywords: []string{"edge"}})
+	// printf verbs in the texts (must come out verbatim in every output format)
+	k++
+	out = append(out, database.Command{Command: fmt.Sprintf("zq%dx frobnicate +%%Y-%%m-%%d %%s %%d", k), Description: "Frobnicate the widget to 100%", Keywords: []string{"frobnicate", "widget", "100%"}})
 	// decoys
 	for j := 0; j < 3; j++ {
 		k++
